@@ -171,6 +171,16 @@ func checkC06(c C06Case, o *Obs) error {
 		if err := compare("File(gzip-compressed *.gz file)", func(cb func(Item) bool) { codec.File(gz, cb) }); err != nil {
 			return err
 		}
+		// The value returned by File(path) stands for the file: ranging over it again (also after
+		// an abandoned pass) yields the file's items again.
+		again := codec.FileSeq(plain)
+		if err := compare("File(plain file), first pass over the iterator value", again); err != nil {
+			return err
+		}
+		collect(again, 1) // abandoned after one item
+		if err := compare("File(plain file), another pass over the same iterator value", again); err != nil {
+			return err
+		}
 		missing := filepath.Join(scratchDir(), "does-not-exist", "x."+c.Format)
 		got, over, p := collect(func(cb func(Item) bool) { codec.File(missing, cb) }, 8)
 		if p != nil {
